@@ -133,6 +133,7 @@ type mEmbeddedTagged struct {
 	mInner `avp:"V-Grouped"`
 	X      uint64 `avp:"V-Unsigned64"`
 }
+
 // a group of the BASE dictionary whose rule marks members as required: omitempty is the caller's word, not the rule's
 type mBaseVSA struct {
 	V struct {
@@ -148,6 +149,21 @@ type mDatatypeConv struct {
 	B datatype.Integer32   `avp:"V-Integer64"`
 	S datatype.OctetString `avp:"V-UTF8String"`
 }
+
+// the same AVP twice with another one in between (both carry the same value: a scalar field takes the first
+// occurrence when unmarshalled)
+type mRepeat struct {
+	A uint32               `avp:"V-Unsigned32"`
+	S string               `avp:"V-UTF8String"`
+	B uint32               `avp:"V-Unsigned32"`
+	O datatype.OctetString `avp:"V-OctetString"`
+}
+
+// signed Go integers on an Unsigned32 AVP, up to the largest value
+type mSignedU32 struct {
+	A int64 `avp:"V-Unsigned32"`
+	B int   `avp:"VW-Unsigned32"`
+}
 type mAVPs struct {
 	A  diam.AVP    `avp:"V-Unsigned32"`
 	P  *diam.AVP   `avp:"V-UTF8String"`
@@ -158,28 +174,44 @@ type mAVPs struct {
 type mType struct {
 	Name string
 	New  func() interface{}
+	Fix  func(interface{}) // adjusts a filled value to the constraints of the type
 }
 
 var mTypes = []mType{
-	{"Scalars", func() interface{} { return &mScalars{} }},
-	{"Floats", func() interface{} { return &mFloats{} }},
-	{"Datatypes", func() interface{} { return &mDatatypes{} }},
-	{"Addresses", func() interface{} { return &mAddresses{} }},
-	{"NewTypes", func() interface{} { return &mNewTypes{} }},
-	{"Pointers", func() interface{} { return &mPointers{} }},
-	{"Slices", func() interface{} { return &mSlices{} }},
-	{"Nested", func() interface{} { return &mNested{} }},
-	{"SliceNested", func() interface{} { return &mSliceNested{} }},
-	{"Embedded", func() interface{} { return &mEmbedded{} }},
-	{"Omit", func() interface{} { return &mOmit{} }},
-	{"Vendor", func() interface{} { return &mVendor{} }},
-	{"AVPs", func() interface{} { return &mAVPs{} }},
-	{"VendorOdd", func() interface{} { return &mVendorOdd{} }},
-	{"EmbeddedLate", func() interface{} { return &mEmbeddedLate{} }},
-	{"BaseGroup", func() interface{} { return &mBaseGroup{} }},
-	{"EmbeddedTagged", func() interface{} { return &mEmbeddedTagged{} }},
-	{"BaseVSA", func() interface{} { return &mBaseVSA{} }},
-	{"DatatypeConv", func() interface{} { return &mDatatypeConv{} }},
+	{"Scalars", func() interface{} { return &mScalars{} }, nil},
+	{"Floats", func() interface{} { return &mFloats{} }, nil},
+	{"Datatypes", func() interface{} { return &mDatatypes{} }, nil},
+	{"Addresses", func() interface{} { return &mAddresses{} }, nil},
+	{"NewTypes", func() interface{} { return &mNewTypes{} }, nil},
+	{"Pointers", func() interface{} { return &mPointers{} }, nil},
+	{"Slices", func() interface{} { return &mSlices{} }, nil},
+	{"Nested", func() interface{} { return &mNested{} }, nil},
+	{"SliceNested", func() interface{} { return &mSliceNested{} }, nil},
+	{"Embedded", func() interface{} { return &mEmbedded{} }, nil},
+	{"Omit", func() interface{} { return &mOmit{} }, nil},
+	{"Vendor", func() interface{} { return &mVendor{} }, nil},
+	{"AVPs", func() interface{} { return &mAVPs{} }, nil},
+	{"VendorOdd", func() interface{} { return &mVendorOdd{} }, nil},
+	{"EmbeddedLate", func() interface{} { return &mEmbeddedLate{} }, nil},
+	{"BaseGroup", func() interface{} { return &mBaseGroup{} }, nil},
+	{"EmbeddedTagged", func() interface{} { return &mEmbeddedTagged{} }, nil},
+	{"BaseVSA", func() interface{} { return &mBaseVSA{} }, nil},
+	{"DatatypeConv", func() interface{} { return &mDatatypeConv{} }, nil},
+	{"Repeat", func() interface{} { return &mRepeat{} }, func(v interface{}) { r := v.(*mRepeat); r.B = r.A }},
+	{"SignedU32", func() interface{} { return &mSignedU32{} }, func(v interface{}) {
+		r := v.(*mSignedU32)
+		pick := func(x int64) int64 {
+			switch {
+			case x == 0:
+				return 0
+			case x < 0:
+				return 4294967295
+			}
+			return 77
+		}
+		r.A = pick(r.A)
+		r.B = int(pick(int64(r.B)))
+	}},
 }
 
 // ---- building values from a choice vector
@@ -324,7 +356,7 @@ func fill(v reflect.Value, c *chooser, d abs.Def) {
 		}
 	case reflect.Int32:
 		v.SetInt([]int64{0, math.MinInt32, -7}[c.next(3)])
-	case reflect.Int64:
+	case reflect.Int, reflect.Int64:
 		v.SetInt([]int64{0, math.MinInt64, 123456789012}[c.next(3)])
 	case reflect.Float32:
 		v.SetFloat([]float64{0, float64(float32(math.MaxFloat32)), -1.5}[c.next(3)])
@@ -387,6 +419,31 @@ func fill(v reflect.Value, c *chooser, d abs.Def) {
 	}
 }
 
+// refillAVPs overwrites, in place, the Data of every value-typed diam.AVP field (and []diam.AVP element)
+func refillAVPs(v reflect.Value) {
+	t := v.Type()
+	if t == tAVP {
+		a := v.Addr().Interface().(*diam.AVP)
+		a.Data = datatype.OctetString("overwritten by the caller")
+		return
+	}
+	switch t.Kind() {
+	case reflect.Struct:
+		if t == tTime || t == tDTime {
+			return
+		}
+		for i := 0; i < t.NumField(); i++ {
+			if v.Field(i).CanSet() {
+				refillAVPs(v.Field(i))
+			}
+		}
+	case reflect.Slice:
+		for i := 0; i < v.Len(); i++ {
+			refillAVPs(v.Index(i))
+		}
+	}
+}
+
 // ---- the harness's own description of a value
 
 type mVal struct {
@@ -418,7 +475,7 @@ func semOf(v reflect.Value, kind string) []int {
 			return abs.Limbs64(v.Uint())
 		}
 		return abs.Limbs32(uint32(v.Uint()))
-	case reflect.Int32, reflect.Int64:
+	case reflect.Int, reflect.Int32, reflect.Int64:
 		if kind == "i64" {
 			return abs.Limbs64(uint64(v.Int()))
 		}
@@ -539,23 +596,24 @@ type marshalCase struct {
 	Vec  []int  `json:"vec"`
 }
 type marshalLine struct {
-	Ev    string    `json:"ev"`
-	ID    int       `json:"id"`
-	Type  string    `json:"type"`
-	Vec   []int     `json:"vec"`
-	Used  int       `json:"used"`
-	Value []mField  `json:"value"`
-	MOK   bool      `json:"mok"`
-	MErr  string    `json:"merr"`
-	AVPs  []abs.AVP `json:"avps"`
-	HLen  int       `json:"hlen"`
-	SLen  int       `json:"slen"`
-	UOK   bool      `json:"uok"`
-	Back  []mField  `json:"back"`
-	WOK   bool      `json:"wok"`
-	Back2 []mField  `json:"back2"`
-	UErr  string    `json:"uerr"`
-	Re    bool      `json:"re"` // the message already held the AVPs of another value of the same type
+	Ev     string    `json:"ev"`
+	ID     int       `json:"id"`
+	Type   string    `json:"type"`
+	Vec    []int     `json:"vec"`
+	Used   int       `json:"used"`
+	Value  []mField  `json:"value"`
+	MOK    bool      `json:"mok"`
+	MErr   string    `json:"merr"`
+	AVPs   []abs.AVP `json:"avps"`
+	HLen   int       `json:"hlen"`
+	SLen   int       `json:"slen"`
+	UOK    bool      `json:"uok"`
+	Back   []mField  `json:"back"`
+	WOK    bool      `json:"wok"`
+	Back2  []mField  `json:"back2"`
+	UErr   string    `json:"uerr"`
+	Stable bool      `json:"stable"` // the message's AVPs are the same after the struct was given other values
+	Re     bool      `json:"re"`     // the message already held the AVPs of another value of the same type
 }
 
 func runMarshal(id int, c *marshalCase, ch *chooser, dp *dict.Parser) marshalLine {
@@ -579,6 +637,9 @@ func runMarshalRe(id int, c *marshalCase, ch *chooser, dp *dict.Parser, re bool)
 	}
 	src := mt.New()
 	fill(reflect.ValueOf(src).Elem(), ch, abs.Def{})
+	if mt.Fix != nil {
+		mt.Fix(src)
+	}
 	l.Used = ch.used
 	l.Value = describe(reflect.ValueOf(src).Elem())
 	m := diam.NewMessage(abs.VCmd, 0x80, abs.VApp, 1, 2, dp)
@@ -608,6 +669,14 @@ func runMarshalRe(id int, c *marshalCase, ch *chooser, dp *dict.Parser, re bool)
 	if err == nil {
 		l.SLen = len(wire)
 	}
+	// the struct is given other values (reused for the next request): the message must not follow
+	before, _ := json.Marshal(l.AVPs)
+	safely(func() {
+		fill(reflect.ValueOf(src).Elem(), &chooser{vec: []int{2, 1, 2, 1, 2, 1, 2, 1, 2, 1, 2, 1}}, abs.Def{})
+		refillAVPs(reflect.ValueOf(src).Elem())
+	})
+	after, _ := json.Marshal(abs.FromGoList(m.AVP))
+	l.Stable = string(before) == string(after)
 	dst := mt.New()
 	perr = safely(func() {
 		if err := m.Unmarshal(dst); err != nil {
